@@ -32,7 +32,7 @@ fn info(tier: Tier) -> CheckInfo {
         id: "C08",
         level: "model_checking",
         rule: format!(
-            "Tier {}: one real writer (client mode) and N scripted storing endpoints, N in {}; each endpoint independently {{issues no token | acks | answers 203 | 205 | 301 | 302 | 201 | stays silent | acks after the request expired}} - every assignment, every arrival order of the replies (distinct latencies 10/60/110 ms permuted), all four put kinds (immutable, mutable, announce_peer, announce_signed_peer) through the public put API; plus replica sets of 255/256/257/300 addressed nodes through extra_nodes with all-ack, one-ack, all-301 and half-301-half-ack, and extra_nodes mixing a token holder with a token-less node. Oracle from the network log: Ok <=> an ack was delivered before its request expired (a majority of 301/302 on a mutable put may pre-empt it); a concurrency error only if 301/302 was really answered; otherwise a query error; writes go exactly to the endpoints that issued a token in this lookup, each with its own token. Every execution runs the real node; states = distinct world digests.",
+            "Tier {}: one real writer (client mode) and N scripted storing endpoints, N in {}; each endpoint independently {{issues no token | acks | answers 203 | 205 | 301 | 302 | 201 | stays silent | acks after the request expired | has gone read-only and flags its ack ro=1}} - every assignment, every arrival order of the replies (distinct latencies 10/60/110 ms permuted), all four put kinds (immutable, mutable, announce_peer, announce_signed_peer) through the public put API; plus replica sets of 255/256/257/300 addressed nodes through extra_nodes with all-ack, one-ack, all-301 and half-301-half-ack, and extra_nodes mixing a token holder with a token-less node. Oracle from the network log: Ok <=> an ack was delivered before its request expired (a majority of 301/302 on a mutable put may pre-empt it); a concurrency error only if 301/302 was really answered; otherwise a query error; writes go exactly to the endpoints that issued a token in this lookup, each with its own token. Every execution runs the real node; states = distinct world digests.",
             tier.name(),
             if tier.is_quick() { "{1,2,3}" } else { "{1,2,3,4}" }
         ),
@@ -50,9 +50,12 @@ enum Beh {
     Err(i64),
     Silent,
     LateAck,
+    /// Went read-only (BEP43) between the lookup and the write: does not store, and flags its
+    /// ping-shaped reply to the write ro=1 - not a storing node's acknowledgement.
+    RoAck,
 }
 
-const BEHS: [Beh; 9] = [
+const BEHS: [Beh; 10] = [
     Beh::Ack,
     Beh::NoToken,
     Beh::Err(203),
@@ -62,6 +65,7 @@ const BEHS: [Beh; 9] = [
     Beh::Err(201),
     Beh::Silent,
     Beh::LateAck,
+    Beh::RoAck,
 ];
 
 const KINDS: [&str; 4] = ["immutable", "mutable", "announce_peer", "announce_signed_peer"];
@@ -138,6 +142,11 @@ fn scenario(kind: usize, behs: &[Beh], order: usize, track: bool) -> Out {
             Beh::Ack | Beh::LateAck => e.put_reply = PutReply::Ack,
             Beh::Err(c) => e.put_reply = PutReply::Error(*c),
             Beh::Silent => e.put_reply = PutReply::Silent,
+            Beh::RoAck => {
+                e.put_reply = PutReply::Ack;
+                e.ro_on_put_replies = Some(1);
+                e.store_puts = false;
+            }
         }
     }
     let eps = net.addrs();
@@ -251,6 +260,7 @@ fn beh_name(b: &Beh) -> String {
         Beh::Err(c) => format!("e{c}"),
         Beh::Silent => "silent".into(),
         Beh::LateAck => "late-ack".into(),
+        Beh::RoAck => "ro-ack".into(),
     }
 }
 
@@ -495,6 +505,7 @@ fn parse_beh(s: &str) -> Option<Beh> {
         "ack" => Beh::Ack,
         "silent" => Beh::Silent,
         "late-ack" => Beh::LateAck,
+        "ro-ack" => Beh::RoAck,
         e => Beh::Err(e.strip_prefix('e')?.parse().ok()?),
     })
 }
